@@ -178,6 +178,7 @@ L3 = [((1, 1), (2, 2)), ((2, 2), (1, 1)), ((1, 1), (1, 1), (1, 1)), ((2, 3),), (
 for _lay in L3[:3]:
     for _lim in (0, 1):
         _add(mk_frame_directional(2, 3, _lay, 1, _lim, timeout=200))
+_add(mk_frame_directional(1, 6, ((1, 1), (2, 5)), 1, 2, timeout=240))   # wide 2-D block after a 1-D block, limit 2
 _add(mk_frame_directional(3, 2, ((1, 1), (1, 1)), 0, 1, timeout=200))
 _add(mk_frame_directional(3, 2, ((2, 2),), 0, 0, timeout=200))
 for _lay in layouts.compositions(3):
@@ -208,19 +209,21 @@ _add(mk_frame_sided(3, 2, ((2, 2),), 0))
 _add(mk_frame_sided(3, 2, ((1, 1), (1, 1)), 0))
 
 
-def mk_frame_misc(layout, tier='quick'):
-    def body(env, fill, **kw):
+def mk_frame_misc(layout, part, tier='quick'):
+    def body(env, fill=0, **kw):
         import numpy  # noqa: F401
         flags = [[kw[f'm{r}{c}'] for c in range(3)] for r in range(2)]
         f, ref = mk_frame(env, flags, layout)
         xp = env.xp
         out, exp = [], []
-        out.append(env.obs(f.isna().values.tolist())); exp.append(flags)
-        out.append(env.obs(f.fillna(fill).values.tolist())); exp.append([[fill if flags[r][c] else ref[r][c] for c in range(3)] for r in range(2)])
-        out.append(env.obs(f.count(axis=0).values.tolist())); exp.append([sum(1 for r in range(2) if not flags[r][c]) for c in range(3)])
-        out.append(env.obs(f.count(axis=1).values.tolist())); exp.append([sum(1 for c in range(3) if not flags[r][c]) for r in range(2)])
+        if part == 'cells':
+            out.append(env.obs(f.isna().values.tolist())); exp.append(flags)
+            out.append(env.obs(f.fillna(fill).values.tolist())); exp.append([[fill if flags[r][c] else ref[r][c] for c in range(3)] for r in range(2)])
+            out.append(env.obs(f.count(axis=0).values.tolist())); exp.append([sum(1 for r in range(2) if not flags[r][c]) for c in range(3)])
+            out.append(env.obs(f.count(axis=1).values.tolist())); exp.append([sum(1 for c in range(3) if not flags[r][c]) for r in range(2)])
+            return out, exp
         # dropna: rows (axis 0) / columns (axis 1) where ALL (default) or ANY cells are missing
-        for axis, cond_name in ((0, 'all'), (0, 'any'), (1, 'all'), (1, 'any')):
+        for axis, cond_name in (((0, 'all'), (1, 'any')) if part == 'dropna_a' else ((0, 'any'), (1, 'all'))):
             agg = all if cond_name == 'all' else any
             d = f.dropna(axis=axis, condition=getattr(xp, cond_name))
             if axis == 0:
@@ -235,14 +238,16 @@ def mk_frame_misc(layout, tier='quick'):
                 want[2] = [[] for _ in want[0]] if want[1] == [] else want[2]
             exp.append(want)
         return out, exp
-    return Cond(f'frame_isna_fillna_count_dropna_{layouts.name(layout)}', [(f'm{r}{c}', 'bool') for r in range(2) for c in range(3)] + [('fill', 'int')], body,
+    return Cond(f'frame_{part}_{layouts.name(layout)}', [(f'm{r}{c}', 'bool') for r in range(2) for c in range(3)] + ([('fill', 'int')] if part == 'cells' else []), body,
             functions=['Frame.isna', 'Frame.fillna', 'Frame.count', 'Frame.dropna', 'TypeBlocks.dropna_to_keep_locations'],
             bounds=f'2x3 float64 frame, layout {layout}; every missing pattern; fill an unbounded symbolic int',
             route='Frame.isna / fillna(v) / count(axis) / dropna(axis, all|any)', tier=tier, timeout=300)
 
 
-_add(mk_frame_misc(L3[0]))
-_add(mk_frame_misc(L3[3]))
+for _part in ('cells', 'dropna_a', 'dropna_b'):
+    _add(mk_frame_misc(L3[0], _part))
+_add(mk_frame_misc(L3[3], 'cells', tier='thorough'))
+_add(mk_frame_misc(L3[3], 'dropna_a'))
 
 
 def body_mixed_kinds(env, m0, m1, n0, n1, fill):
